@@ -1221,3 +1221,44 @@ Proof.
   - eapply Forall_impl; [|exact Hev]. simpl. intros e He. apply He.
   - eapply Forall_impl; [|exact K]. simpl. intros e He. apply He.
 Qed.
+
+(* ------------------------------------------------------------------ end to end: chunks, each with its own accumulator *)
+(* the matrix a chunk's accumulator hands back (0 if it faulted) *)
+Definition acc_matrix (limit n mlen : Z) (evs : list entry) (k : Z) : Z :=
+  match run limit n mlen evs with Ok s => denote s k | OOB _ => 0 end.
+
+Lemma slice_parts {A} (l : list A) a b : exists pre post, l = pre ++ slice l a b ++ post.
+Proof.
+  unfold slice. exists (firstn (Z.to_nat a) l), (skipn (Z.to_nat (b - a)) (skipn (Z.to_nat a) l)).
+  rewrite firstn_skipn, firstn_skipn. reflexivity.
+Qed.
+
+Lemma events_of_slice_bounds doc (f : doc -> list entry) docs ch :
+  zlen (events_of doc f (chunk_docs docs ch)) <= zlen (events_of doc f docs) /\
+  incl (events_of doc f (chunk_docs docs ch)) (events_of doc f docs).
+Proof.
+  unfold chunk_docs. destruct (slice_parts docs (fst ch) (snd ch)) as (pre & post & E).
+  rewrite E at 2 4. rewrite !events_of_app. split.
+  - zl. pose proof (zlen_nonneg (events_of doc f pre)). pose proof (zlen_nonneg (events_of doc f post)). lia.
+  - intros x Hx. apply in_or_app. right. apply in_or_app. left. exact Hx.
+Qed.
+
+Theorem end_to_end doc (f : doc -> list entry) docs sizes n_threads limit (capf mlenf : Z * Z -> Z) k :
+  length sizes = length docs -> 1 <= limit -> (forall ch, 20 <= capf ch) ->
+  Forall (fun e => 0 <= e_key e) (events_of doc f docs) ->
+  (forall ch, 2 * zlen (events_of doc f docs) + 2 < 2 ^ (mlenf ch - 1)) ->
+  fold_right Z.add 0
+    (map (fun ch => acc_matrix limit (capf ch) (mlenf ch) (events_of doc f (chunk_docs docs ch)) k)
+         (chunk_boundaries sizes n_threads))
+  = sumby (events_of doc f docs) k.
+Proof.
+  intros Hlen Hl Hcap Hk Hm.
+  rewrite <- (chunked_matrix_total doc f docs sizes n_threads k Hlen). unfold chunked_matrix.
+  f_equal. apply map_ext. intros ch.
+  destruct (events_of_slice_bounds doc f docs ch) as [B1 B2].
+  destruct (run_total (fun _ => True) limit (capf ch) (mlenf ch) (events_of doc f (chunk_docs docs ch)))
+    as (s & E & D & _); auto.
+  - unfold keys_nonneg. rewrite Forall_forall in *. intros x Hx. split; [apply Hk, B2, Hx|exact I].
+  - specialize (Hm ch). lia.
+  - unfold acc_matrix. rewrite E. apply D.
+Qed.
